@@ -22,6 +22,9 @@ def scaled(b, selector, variant):
             "connect_kwargs": {"ping_rate": 0, "close_timeout": None},
             "transport": {"tls": bool(b['tls']), "rec": b['rec'], "short": b['short'], "bursts": list(b['bursts']),
                           "dts": [1 + (i % 2) for i in range(len(b['bursts']))]}}
+    if variant == 4:
+        # the application has called close() at Ready: what arrives afterwards (Pings included) is still drained and delivered
+        sc['react'] = {"ready#0": [["close"]]}
     if variant == 3:
         # an application thread is blocked in a large send (the peer reads only after it has been read from): reading must not need the write lock
         sc['writer_blocked'] = True
@@ -93,6 +96,8 @@ def run(tier, seed):
             jobs.append(scaled(b, sel, si))
         if len(seen_b) % 4 == 0:
             jobs.append(scaled(b, 'poll', 3))
+        if len(seen_b) % 4 == 2:
+            jobs.append(scaled(b, 'poll', 4))
     jobs += real_size(tier, seed)
     logs = pipeline.execute(jobs)
     r.evaluations = len(jobs)
